@@ -65,7 +65,7 @@ class JP_Abs(JumpInstruction):
 
         first, *rest = self.operands()
         assert len(rest) == 0, "Expected no extra operands"
-        if isinstance(first, ImmOperand):
+        if isinstance(first, ImmOperand) and not isinstance(first, IMem8):
             # absolute address
             assert first.value is not None, "Value not set"
             dest = first.value
@@ -75,6 +75,10 @@ class JP_Abs(JumpInstruction):
                 BranchType.TrueBranch if self._cond else BranchType.UnconditionalBranch
             )
             info.add_branch(branch_type, dest)
+        else:
+            # JP (n) / JP r: the destination comes from internal memory or a register. (IMem20 is an
+            # ImmOperand subclass, but its value is the internal-memory offset, not the target.)
+            info.add_branch(BranchType.UnresolvedBranch)
 
 
 class JP_Rel(JumpInstruction):
